@@ -591,3 +591,49 @@ def _test_roles(flow, f, t):
         if isinstance(nm, (ast.Name, ast.Attribute)):
             r |= flow.roles(f, nm)
     return r
+
+
+def r_candidate(A, ctx, scope, rule="R-CANDIDATE"):
+    ctx.rule(rule, "the extrapolated pair is judged and accepted as produced: between "
+             "`a, b, flag = accelerator.extrapolate(w, Xw)` and the end of the iteration no statement stores "
+             "into one half of the pair (clipping, projecting or rescaling the coefficients) - the two halves "
+             "are one affine combination of past iterates, changing one breaks Xw = X w for the point that is "
+             "compared with the current one and copied into the iterate")
+    n = 0
+    for name, sf in sorted(A.facts.items()):
+        f = sf.f
+        for st in ast.walk(f.node):
+            if not (isinstance(st, ast.Assign) and len(st.targets) == 1 and isinstance(st.targets[0], ast.Tuple)
+                    and isinstance(st.value, ast.Call) and isinstance(st.value.func, ast.Attribute)
+                    and st.value.func.attr == "extrapolate" and len(st.targets[0].elts) >= 2):
+                continue
+            halves = []
+            for e in st.targets[0].elts[:2]:
+                while isinstance(e, ast.Subscript):
+                    e = e.value
+                if isinstance(e, ast.Name):
+                    halves.append(e.id)
+            if len(halves) != 2:
+                continue
+            n += 1
+            bad = None
+            for x in ast.walk(f.node):
+                if getattr(x, "lineno", 0) <= st.lineno or x is st:
+                    continue
+                tgs = x.targets if isinstance(x, ast.Assign) else [x.target] if isinstance(x, ast.AugAssign) else []
+                if isinstance(x, ast.Assign) and isinstance(x.value, ast.Call) and isinstance(x.value.func, ast.Attribute) \
+                        and x.value.func.attr == "extrapolate":
+                    continue
+                for t in tgs:
+                    for e in (t.elts if isinstance(t, ast.Tuple) else [t]):
+                        base = e
+                        while isinstance(base, ast.Subscript):
+                            base = base.value
+                        if isinstance(base, ast.Name) and base.id in halves:
+                            bad = x
+            ctx.ob(rule, f"{f.fq}::{'/'.join(halves)}", bad is None,
+                   what=(f"`{norm_src(bad)[:70]}` changes `{halves[0]}` / `{halves[1]}` after the pair came back from "
+                         "extrapolate(): the other half is not recomputed, so the objective test and the accepted "
+                         "point use a model fit that is not X @ w (the objective can increase; the solver then runs "
+                         "on an inconsistent pair)") if bad is not None else "", loc=loc(f, bad) if bad is not None else None)
+    ctx.floor(rule, n, scope.get("floor", 3))
